@@ -559,7 +559,8 @@ DecidePreempt(S, n, j) ==
         sv == Nd(S, n).srv
     IN IF pp = 0 THEN {S}
        ELSE IF \E a \in DOMAIN sv : sv[a].cust = 0 THEN Crash(S, "AttributeError:decide_preempt")
-       ELSE LET ins == {a \in DOMAIN sv : ~Cu(S, sv[a].cust).blk}    \* a blocked customer is not in service any more
+       ELSE LET ins == {a \in DOMAIN sv : ~Cu(S, sv[a].cust).blk /\ ~sv[a].off}
+                \* a blocked customer is not in service any more; an off-duty server only finishes its customer
             IN IF ins = {} THEN {S}
                ELSE LET least == SetMax({Cu(S, sv[a].cust).prio : a \in ins})
                     IN IF ~(Cu(S, j).prio < least) THEN {S}
